@@ -136,3 +136,97 @@ def run(run, P, units=None):
         run.oblige('R-LOST-STORE', True, '%s:sites' % name)
         solve(f, Env(), on_event, None, keys, R, key_fn=lambda e: e.ts.get('fresh'), on_branch=on_branch)
     return n
+
+
+def maintainers(P):
+    """(g, i) -> fields f such that g assigns `param_i->f` a computed (non-constant) value: g keeps f up to date with the object's content"""
+    out = collections.defaultdict(set)
+    for g in P.lib_funcs():
+        for i, p in enumerate(g.get('params') or ()):
+            if not p.get('p') or p.get('pc'):
+                continue
+            pv = 'v%s' % p['id']
+            for b, ev in P.events(g):
+                t = ev['e']
+                if ev.get('top') and t.get('k') == 'asg':
+                    l = strip(t['l'])
+                    if isinstance(l, dict) and l.get('k') == 'mem' and l.get('arrow') and ap(l.get('b')) == pv and \
+                            not (t.get('op') == '=' and (const_int(t['r']) is not None or is_null_const(t['r']))):
+                        out[(g['name'], i)].add(l['f'])
+    return out
+
+
+def run_maintained(run, P, units=None):
+    """R-LOST-STORE (maintained field): the mirror image.  Once a function that keeps `X->f` up to date with X's content (a maintainer, computed:
+    assigns a computed value to the field of its parameter - coap_add_option_internal() and max_opt) has been called on X, the caller does not
+    overwrite `X->f` with the same field of ANOTHER object (`X->f = Y->f`): X's bookkeeping then describes Y's content, not X's own.
+    coap_pdu_duplicate_lkd() copies max_opt only in the arm that block-copied every option; after the filtered copy the value the adding
+    function left is the right one."""
+    run.rule('R-LOST-STORE')
+    from core.prog import succs
+    MT = maintainers(P)
+    n = 0
+    for f in sorted(P.lib_funcs(), key=lambda f: f['name']):
+        if units and f['unit'] not in units:
+            continue
+        copies, calls = [], []
+        order = {}
+        for b, ev in P.events(f):
+            order[id(ev)] = (b['id'], len(order))
+            t = ev['e']
+            if not ev.get('top'):
+                continue
+            if t.get('k') == 'asg' and t.get('op') == '=':
+                l, r = strip(t['l']), strip(t['r'])
+                while isinstance(r, dict) and r.get('k') == 'cast':
+                    r = strip(r.get('e'))
+                if isinstance(l, dict) and l.get('k') == 'mem' and l.get('arrow') and isinstance(r, dict) and r.get('k') == 'mem' and r.get('f') == l['f'] \
+                        and r.get('rec') == l.get('rec') and ap(l.get('b')) and ap(r.get('b')) and ap(l['b']) != ap(r['b']):
+                    copies.append((ev, b['id'], ap(l['b']), l['f']))
+            for c in walk(t):
+                if isinstance(c, dict) and c.get('k') == 'call' and c.get('fn'):
+                    for i, a in enumerate(c.get('a') or ()):
+                        if (c['fn'], i) in MT and isinstance(strip(a), dict) and ap(strip(a)):
+                            calls.append((ev, b['id'], ap(strip(a)), MT[(c['fn'], i)], c['fn']))
+        # conditions hold calls too (`if (!coap_add_option_internal(..)) goto fail;`)
+        for b in f['blocks']:
+            c = (b.get('term') or {}).get('cond')
+            if c is None:
+                continue
+            for x in walk(c):
+                if isinstance(x, dict) and x.get('k') == 'call' and x.get('fn'):
+                    for i, a in enumerate(x.get('a') or ()):
+                        if (x['fn'], i) in MT and isinstance(strip(a), dict) and ap(strip(a)):
+                            calls.append((None, b['id'], ap(strip(a)), MT[(x['fn'], i)], x['fn']))
+        if not copies:
+            continue
+        name = f['name']
+        B = f['B']
+
+        def reach(frm):
+            seen, work = set(), list(succs(B[frm]))
+            while work:
+                i = work.pop()
+                if i in seen:
+                    continue
+                seen.add(i)
+                if not B[i].get('noret'):
+                    work.extend(succs(B[i]))
+            return seen
+        for cev, cb, cx, cf in copies:
+            n += 1
+            run.instance('R-LOST-STORE', '%s: %s copies the field of another object' % (name, short(cev['e'])))
+            bad = None
+            for mev, mb, mx, mfs, mfn in calls:
+                if mx != cx or cf not in mfs:
+                    continue
+                if cb in reach(mb) or (mb == cb and mev is not None and order[id(mev)][1] < order[id(cev)][1]):
+                    bad = mfn
+                    break
+            run.oblige('R-LOST-STORE', bad is None, '%s:%s:maintained-field-kept' % (name, cf))
+            if bad:
+                run.violation('R-LOST-STORE', name, cev['loc'], 'maintained-field-overwritten:%s:%s' % (cf, bad),
+                              '%s replaces the field with another object\'s although %s(), which keeps that field up to date with what THIS object holds, has already run on it '
+                              'on some path to here: the bookkeeping no longer describes the object (an option added next is delta-encoded against the wrong number)'
+                              % (short(cev['e']), bad))
+    return n
